@@ -69,6 +69,8 @@ def generate(rng, tier, shard, nshards):
         if cls == 'PointPixelRegion' and style == 'none' and rng.random() < 0.5:
             vis = {'symbol': rng.choice(['.', 'x', '+', 'o', 's']), 'symsize': rng.choice([5, 9])}       # keys as the CRTF reader produces them
         reg['visual'] = vis
+        if rng.random() < 0.3:
+            reg['meta'] = {'include': rng.choice([False, 0])}          # an excluded region (e.g. DS9 "-circle(...)") is drawn like any other
         kw = {}
         if rng.random() < 0.6:
             if cls == 'TextPixelRegion':
@@ -124,6 +126,22 @@ def colour_eq(a, b):
         return False
 
 
+_AX = {'ax': None, 'n': 0}
+
+
+def _axes():
+    import matplotlib
+    matplotlib.use('Agg')
+    import matplotlib.pyplot as plt
+    if _AX['ax'] is None or _AX['n'] > 200:
+        if _AX['ax'] is not None:
+            plt.close(_AX['ax'].figure)
+        _AX['ax'] = plt.figure().add_subplot(111)
+        _AX['n'] = 0
+    _AX['n'] += 1
+    return _AX['ax']
+
+
 def run_case(case, obs):
     import matplotlib
     import matplotlib.patches as mp
@@ -168,7 +186,13 @@ def run_case(case, obs):
         obs.count('regular-polygon-edited-before-as_artist')
         model = regions.PolygonPixelRegion(regions.PixCoord(np.array(reg.vertices.x, dtype=float), np.array(reg.vertices.y, dtype=float)))
         fp0 = S.fingerprint(reg)
-    art = reg.as_artist(origin=origin, **kw)
+    if case['rs'] % 3 == 1:
+        # the documented way to draw: plot() puts the artist of as_artist() on an Axes and hands it back - the same artist
+        art = reg.plot(origin=origin, ax=_axes(), **kw)
+        obs.count('artists-obtained-through-plot')
+        # (excluded regions included: how a region is drawn does not depend on its include flag beyond what the visual says)
+    else:
+        art = reg.as_artist(origin=origin, **kw)
     obs.check(S.fingerprint(reg) == fp0, 'as_artist-mutates-region', f'{cls}.as_artist changed the region', 'region-unchanged')
     if cls in PATCHY:
         if not obs.check(isinstance(art, mp.Patch), 'artist-type', f'{cls}.as_artist returned {type(art).__name__}', 'artist-type'):
